@@ -56,7 +56,7 @@ SortedFields(S) == S          \* the field LIST of a fresh signature is the sort
 \* Sign: what the record looks like (fields as a set; the driver checks the list is sorted and duplicate-free)
 SignRecord(c, penv, key) ==
     LET v == Values(c, penv) IN
-    [alg |-> key.alg, fields |-> DOMAIN v, value |-> [pair |-> key.pair, keyalg |-> key.alg, payload |-> Payload(key.alg, v)]]
+    [alg |-> key.alg, fields |-> DOMAIN v, value |-> [pair |-> key.pair, keyalg |-> key.alg, payload |-> Payload(key.alg, v), form |-> "detached"]]   \* form: a compact JWS with an EMPTY payload section
 
 (* ---------------- Verify: implementation-shaped, step by step ---------------- *)
 \* rec.fields here is a SEQUENCE (what is presented); keyset a set of [pair, alg]
@@ -70,7 +70,7 @@ VerifyImpl(rec, keyset, c, venv) ==
     ELSE LET vals == Values(c, venv)                                                          \* 3 namespace env
          IN IF \E i \in 1..Len(rec.fields) : rec.fields[i] \notin DOMAIN vals THEN "missing_key"   \* 4 requireKeys
             ELSE LET payload == Payload(rec.alg, Restrict(vals, SeqSet(rec.fields)))         \* 5
-                 IN IF \E k \in keyset : k.pair = rec.value.pair /\ k.alg = rec.value.keyalg /\ payload = rec.value.payload   \* 6 JWS
+                 IN IF \E k \in keyset : k.pair = rec.value.pair /\ k.alg = rec.value.keyalg /\ rec.value.form = "detached" /\ payload = rec.value.payload   \* 6 JWS, detached payload only
                     THEN "ok" ELSE "bad_signature"
 
 (* ---------------- rule-shaped: what the property says ---------------- *)
